@@ -127,7 +127,7 @@ Proof. exact save_entries_accepted. Qed.
 
 (* (2.3) startxref: in every successfully saved file (both formats) the strict reader, reading from
    the END of the file, finds the length of the body, and at exactly that offset stands the keyword
-   xref (table) or the header "max_id+1 0 obj" of the cross-reference stream *)
+   xref (table) or the header "max_id+1 0 obj" (max_id after the writer raised it to the largest object number) of the cross-reference stream *)
 Theorem C03_save_startxref_exact :
   forall xt d,
     so_status (save xt d) = SaveOk ->
@@ -135,7 +135,7 @@ Theorem C03_save_startxref_exact :
     match xt with
     | XTable => exists rest, strip KW_xref (at_off (so_bytes (save xt d)) (blen (body_of d))) = Some rest
     | XStream => exists rest, p_objhdr (at_off (so_bytes (save xt d)) (blen (body_of d))) =
-                              Some (d_max_id d + 1, 0, rest)
+                              Some (d_max_id (raise_max_id d) + 1, 0, rest)
     end.
 Proof. exact save_startxref_exact. Qed.
 
